@@ -15,7 +15,7 @@ from __future__ import annotations
 import ast
 from typing import Callable, Mapping, Optional
 
-from .bitslice import Evaluator, Form, Inconclusive
+from .bitslice import Evaluator, Form, Inconclusive, NotABit
 from .consteval import Folder, Unknown
 from .model import FuncInfo, Model, body_without_docstring
 
@@ -96,6 +96,54 @@ class _Ev(Evaluator):
             pass
         if isinstance(e, ast.UnaryOp) and isinstance(e.op, ast.Not):
             return Form.k(1) - self.truth(e.operand)
+        if isinstance(e, ast.BoolOp):
+            is_or = isinstance(e.op, ast.Or)
+            rest = []
+            for v in e.values:
+                t = self.truth(v)
+                if t.is_const():
+                    if bool(t.const) == is_or:
+                        return Form.k(1 if is_or else 0)
+                    continue
+                if not any(t == x for x in rest):
+                    rest.append(t)
+            if not rest:
+                return Form.k(0 if is_or else 1)
+            if len(rest) == 1:
+                return rest[0]
+            raise Inconclusive(f"and/or of several symbolic bits: {ast.unparse(e)[:60]}")
+        if isinstance(e, ast.Compare) and len(e.ops) == 1 and isinstance(e.ops[0], (ast.Gt, ast.GtE, ast.Lt, ast.LtE)):
+            l, r = self.ev(e.left), self.ev(e.comparators[0])
+            op = e.ops[0]
+            if l.is_const() and not r.is_const():
+                l, r = r, l
+                op = {ast.Gt: ast.Lt, ast.GtE: ast.LtE, ast.Lt: ast.Gt, ast.LtE: ast.GtE}[type(op)]()
+            if r.is_const() and not l.tails and l.const == 0 and l.bits:
+                # l is a k-bit unsigned field: coefficients 1, 2, 4, ..., 2**(k-1)
+                items = sorted(l.bits.items(), key=lambda kv: kv[1])
+                k = len(items)
+                if [c for _, c in items] == [1 << i for i in range(k)]:
+                    c = r.const
+                    # reduce to  F > c
+                    neg = False
+                    if isinstance(op, ast.GtE):
+                        c -= 1
+                    elif isinstance(op, ast.Lt):
+                        c -= 1
+                        neg = True
+                    elif isinstance(op, ast.LtE):
+                        neg = True
+                    if c < 0:
+                        res = Form.k(1)
+                    elif c >= (1 << k) - 1:
+                        res = Form.k(0)
+                    elif c == (1 << (k - 1)) - 1:
+                        (var, b), _ = items[-1]
+                        res = Form.field(var, b, b + 1)  # the top bit of the field
+                    else:
+                        raise NotABit(f"`{ast.unparse(e)[:60]}` compares a {k}-bit field with {r.const}: that is not the value of one of its bits")
+                    return Form.k(1) - res if neg else res
+            raise Inconclusive(f"ordering comparison outside the bit-field fragment: {ast.unparse(e)[:60]}")
         if isinstance(e, ast.Compare) and len(e.ops) == 1:
             l, r = self.ev(e.left), self.ev(e.comparators[0])
             op = e.ops[0]
@@ -198,8 +246,25 @@ class AbsRun:
             except Inconclusive:
                 if not self.lenient:
                     raise
-                self.env.pop(s.targets[0].id, None)
+                # an integer the domain knows nothing about: a fresh symbol named after the local
+                self.env[s.targets[0].id] = Form.var(s.targets[0].id)
                 self.unknown.add(s.targets[0].id)
+            return
+        if isinstance(s, ast.Assign) and len(s.targets) == 1 and isinstance(s.targets[0], ast.Tuple) and isinstance(s.value, ast.Tuple) \
+                and len(s.targets[0].elts) == len(s.value.elts) and all(isinstance(t, ast.Name) for t in s.targets[0].elts):
+            vals = []
+            for v in s.value.elts:
+                try:
+                    vals.append(self.ev.ev(v))
+                except Inconclusive:
+                    if not self.lenient:
+                        raise
+                    vals.append(None)
+            for t, v in zip(s.targets[0].elts, vals):
+                if v is None:
+                    self.env.pop(t.id, None)
+                else:
+                    self.env[t.id] = v
             return
         if isinstance(s, ast.AnnAssign) and isinstance(s.target, ast.Name) and s.value is not None:
             self.env[s.target.id] = self.ev.ev(s.value)
@@ -308,5 +373,10 @@ class AbsRun:
             if assigned_after_guard and s.orelse:
                 raise Inconclusive("loop with a non-constant break and an else clause")
             self.block(s.orelse)
+            return
+        if self.lenient:
+            for n in ast.walk(s):
+                if isinstance(n, ast.Name) and isinstance(n.ctx, ast.Store):
+                    self.env.pop(n.id, None)
             return
         raise Inconclusive(f"statement outside the abstract interpreter: {type(s).__name__} at line {getattr(s, 'lineno', 0)}")
